@@ -20,6 +20,9 @@ Pool(k) ==
     [] k = "enum" -> <<".RED.", ".GREEN.", ".BLUE.">>
     [] k = "ref"  -> <<"#1">>
     [] k = "sel"  -> <<"#1", "LAB('q')", "CNT(4)", "RATIO(2.5)", "ILIST((1,2))", "LAB('it''s')">>
+    \* values of the select d1 = SELECT(cnt, d2), d2 = SELECT(tag, d3), d3 = SELECT(wid, d4), d4 = SELECT(num, tgt): depth 1 to 4
+    [] k = "dsel" -> <<"CNT(4)", "TAG('q')", "WID(2.5)", "NUM(7)", "#1", "TAG('it''s')", "WID(-1.5E-3)", "NUM(-9)">>
+    [] k = "ldsel" -> <<"()", "(NUM(7))", "(CNT(4),TAG('q'),WID(2.5),NUM(7),#1)">>
     [] k = "li"   -> <<"()", "(1)", "(1,-2,3)", "(1000000000000000,-9223372036854775806,99999999999999999)">>
     [] k = "sr"   -> <<"()", "(1.5)", "(1.5,2.5E3)">>
     [] k = "bs"   -> <<"()", "('a')", "('a','b','it''s')">>
@@ -37,6 +40,7 @@ Pool(k) ==
 Shapes ==
   << [kw |-> <<"SIMPLE">>, ps |-> << <<"int", "real", "num", "str", "bin", "bool", "log", "enum">> >>],
      [kw |-> <<"OPTS">>, ps |-> << <<"?int", "?real", "?str", "?enum", "?ref", "?sel">> >>],
+     [kw |-> <<"DEEPSEL">>, ps |-> << <<"dsel", "?dsel", "ldsel">> >>],
      [kw |-> <<"DEFTYPES">>, ps |-> << <<"str", "int", "real", "li">> >>],
      [kw |-> <<"AGGS">>, ps |-> << <<"li", "sr", "bs", "ar", "le", "lr", "ls", "lb">> >>],
      [kw |-> <<"NESTED">>, ps |-> << <<"ll">> >>],
@@ -47,9 +51,9 @@ Shapes ==
      [kw |-> <<"MM">>, ps |-> << <<"int", "str", "real">> >>],
      [kw |-> <<"CBASE", "CPA", "CPB">>, ps |-> << <<"int">>, <<"int", "enum">>, <<"str">> >>],
      [kw |-> <<"CBASE", "CPB">>, ps |-> << <<"int">>, <<"str">> >>] >>
-Opt(k) == k \in {"?int", "?real", "?str", "?enum", "?ref", "?sel"}
+Opt(k) == k \in {"?int", "?real", "?str", "?enum", "?ref", "?sel", "?dsel"}
 Base(k) == CASE k = "?int" -> "int" [] k = "?real" -> "real" [] k = "?str" -> "str" [] k = "?enum" -> "enum"
-             [] k = "?ref" -> "ref" [] k = "?sel" -> "sel" [] OTHER -> k
+             [] k = "?ref" -> "ref" [] k = "?sel" -> "sel" [] k = "?dsel" -> "dsel" [] OTHER -> k
 (* the n-th choice for a parameter of kind k at position j: pools are walked with different strides so that all  *)
 (* forms of all kinds are met without taking the full product; an OPTIONAL parameter is `$` every third time      *)
 Choice(k, n, j) == IF Opt(k) /\ (n + j) % 3 = 0 THEN "$"
